@@ -1,7 +1,7 @@
 (* T1 tie (bounded): `load_from_source` as printed from src/asset.rs, run by the interpreter with
    the generic parameter's items (T::EXTENSIONS, T::Loader::load, T::default_value) and the source
    supplied as external functions, equals Ref.Load.load_from_source on EVERY extension list of
-   length <= 3 and every combination of {not found, other I/O error, undecodable, loadable} per
+   length <= 3 and every combination of {not found, other I/O error, interrupted read, undecodable, loadable} per
    extension, for a default_value that passes the error through and for one that recovers.
    The `?` conversions From<io::Error>/From<BoxedError> for ErrorKind are folded into the externals.
    This is an exhaustive check of a finite space (bound in the statement), not the unbounded claim;
@@ -11,9 +11,9 @@ From AM Require Import Rust.Ast Rust.Eval Gen.Error Gen.Asset Ref.Load Tie.Error
 Import ListNotations.
 Open Scope string_scope.
 
-Inductive attempt := ANotFound | AIoOther | AConv | AOk.
+Inductive attempt := ANotFound | AIoOther | AInterrupted | AConv | AOk.
 
-Definition all_attempts := [ANotFound; AIoOther; AConv; AOk].
+Definition all_attempts := [ANotFound; AIoOther; AInterrupted; AConv; AOk].
 
 (* the i-th extension is named e_i and carries tag i *)
 Definition ext_names : list string := ["p"; "q"; "r"].
@@ -22,6 +22,7 @@ Definition read_of (atts : list (string * (attempt * N))) (e : string) : sum (io
   match lookup e atts with
   | Some (ANotFound, t) => inl (KNotFound, t)
   | Some (AIoOther, t) => inl (KOther, t)
+  | Some (AInterrupted, t) => inl (KInterrupted, t)
   | Some (_, t) => inr [t]
   | None => inl (KNotFound, 99%N)
   end.
@@ -47,7 +48,8 @@ Definition dec (v : val) : option ekind :=
   | VCtor "NoDefaultValue" [] => Some ENoDefault
   | VCtor "Conversion" [VN t] => Some (EConv t)
   | VCtor "Io" [VCtor "IoError" [VCtor k []; VN t]] =>
-      if String.eqb k "NotFound" then Some (EIo KNotFound t) else Some (EIo KOther t)
+      if String.eqb k "NotFound" then Some (EIo KNotFound t)
+      else if String.eqb k "Interrupted" then Some (EIo KInterrupted t) else Some (EIo KOther t)
   | _ => None
   end.
 
@@ -110,5 +112,5 @@ Definition all_cases : list (list (string * (attempt * N))) :=
 Lemma load_from_source_bounded_tie :
   forallb (fun atts => outcome_eqb (gen_load atts false) (ref_load atts false)
                        && outcome_eqb (gen_load atts true) (ref_load atts true)) all_cases = true
-  /\ List.length all_cases = 85%nat.
+  /\ List.length all_cases = 156%nat.
 Proof. vm_compute. split; reflexivity. Qed.
